@@ -188,3 +188,7 @@ def run(cx):
         bad = [v for x in w for v in x.violations]
         ob.count(sum(x.evals for x in w))
         ob.require(len(w) == 4 and not bad, "framed-header-and-body", "a message codec does not send/receive header and body as two codec frames: " + "; ".join(v.msg for v in bad)[:300], WIRE)
+
+    with cx.ob("C15.7", "R-WRITERS", "one layer out: the configured maximum reaches the codecs as configured - Config.max_frame_size is never written after the Config was built and its accessor is a pure projection") as ob:
+        check_config_immutable(ob, prog, ["max_frame_size"])
+        check_pure_accessor(ob, prog, "anemo::config::Config::max_frame_size", "max_frame_size")
